@@ -48,6 +48,11 @@ type c10hcase struct {
 	// identities delegate to it, it goes online, its inviter terminates it (KillInviteeTx); 1: the same with an activated
 	// Candidate; 2: the Candidate pool terminates its delegators one by one (KillDelegatorTx, pool becomes empty);
 	// 3: a validated pool owner goes online and terminates itself (KillTx)
+	// script "pool-emptied": genesis (epoch 1) has an ONLINE pool owned by a funded address without identity, with
+	// validated delegators of epoch 0.  Variant 0: all (2-3) delegators send UndelegateTx, applied together at one
+	// delegation-switch height in a proposed block; 1: the same, but the block of the switch height is an EMPTY block;
+	// 2: all delegators but one terminate themselves (KillTx) in one block while the last one's undelegation is pending
+	// (flushed by the same identity-update block); 3: a single delegator, undelegation applied in an empty block
 	Variant int `json:"variant,omitempty"` // "identityless-pool": one or two validated identities delegate to a funded address without identity record, which goes online; then the ceremonies decide
 }
 
@@ -65,6 +70,9 @@ type c10hrun struct {
 	lean   bool // addresses embed injectively into uint32: emit model lines
 	failed map[string]bool
 	resets int
+	scriptDone bool
+	emptyAt    uint64
+	killAt     uint64
 	chk    *appstate.AppState // long-lived check state, maintained the way the sync / fork-validation paths do
 	prev   *types.Header
 	kills  int
@@ -146,6 +154,23 @@ func (x *c10hrun) universe(tree map[common.Address]c10entry) []uint32 {
 	}
 	sort.Slice(out, func(i, j int) bool { return out[i] < out[j] })
 	return out
+}
+
+// onlineOK: the list of online addresses that are neither validated nor a pool (registry level), as the model prints it
+func (x *c10hrun) onlineOK(v *validators.ValidatorsCache) string {
+	var bad []uint32
+	for _, it := range v.GetAllOnlineValidators().ToSlice() {
+		a := it.(common.Address)
+		if !v.IsValidated(a) && !v.IsPool(a) {
+			bad = append(bad, c10hNat(a))
+		}
+	}
+	sort.Slice(bad, func(i, j int) bool { return bad[i] < bad[j] })
+	var it []string
+	for _, b := range bad {
+		it = append(it, strconv.FormatUint(uint64(b), 10))
+	}
+	return "[" + strings.Join(it, ",") + "]"
 }
 
 // a c10world view over the node's caches so that query/snapshot code is shared with the unit channel
@@ -319,6 +344,10 @@ func (x *c10hrun) offer(b int) {
 		x.inviteePool(b, send)
 		return
 	}
+	if x.cs.Script == "pool-emptied" {
+		x.poolEmptied(b, send)
+		return
+	}
 	if x.cs.Script == "identityless-pool" {
 		if b == 3 || b == 4 {
 			i := 1 + int(x.cs.Seed%2)*4 // user 1 (Verified) or user 5 (Verified)
@@ -416,6 +445,43 @@ func (x *c10hrun) offer(b int) {
 			send(i, "replenish", &types.Transaction{Type: types.ReplenishStakeTx, To: &to, Amount: chainfx.Dna(int64(1 + r.Intn(30)))})
 		}
 	}
+}
+
+// poolEmptied: see c10hcase ("pool-emptied").  The transactions are offered so that they are included at a height
+// ≡ 1 (mod 3) and stay pending until the switch height ≡ 0 (mod 3); x.emptyAt tells step() to let that height be an
+// empty block.
+func (x *c10hrun) poolEmptied(b int, send func(i int, what string, tx *types.Transaction)) {
+	n, w := x.h.N, x.w
+	if x.killAt != 0 && n.Chain.Head.Height()+1 == x.killAt {
+		dels := c10hScriptDelegators(x.cs)
+		for _, d := range dels[:len(dels)-1] {
+			send(d, "script:delegators-kill-themselves-in-one-block", &types.Transaction{Type: types.KillTx})
+		}
+		x.killAt = 0
+	}
+	if x.scriptDone || b < 3 {
+		return
+	}
+	next := n.Chain.Head.Height() + 1
+	if next%3 != 1 {
+		return
+	}
+	dels := c10hScriptDelegators(x.cs)
+	x.scriptDone = true
+	switch x.cs.Variant {
+	case 0, 1, 3:
+		for _, d := range dels {
+			send(d, "script:undelegate-all-at-one-switch", &types.Transaction{Type: types.UndelegateTx})
+		}
+		if x.cs.Variant != 0 {
+			x.emptyAt = next + 2
+		}
+	case 2:
+		last := dels[len(dels)-1]
+		send(last, "script:undelegate-pending", &types.Transaction{Type: types.UndelegateTx})
+		x.killAt = next + 1
+	}
+	_ = w
 }
 
 // inviteePool drives the scripted scenario family (see c10hcase.Variant) by polling the node's state every block.
@@ -562,6 +628,34 @@ func (x *c10hrun) check(blk *types.Block, fresh *validators.ValidatorsCache, tre
 			x.fail("C10H:online-delegator", fmt.Sprintf("height %d: %s flags %d delegatee %d", height, a.Hex(), e.flags, e.deleg))
 		}
 	}
+	// the ledger clause, stated independently of registry and caches: whoever is online is a validated identity of the
+	// ledger or has at least one delegator in the ledger
+	ledgerPools := map[common.Address]bool{}
+	st.IterateOverIdentities(func(a common.Address, id state.Identity) {
+		if d := id.Delegatee(); d != nil {
+			ledgerPools[*d] = true
+		}
+	})
+	onlineSets := map[string][]common.Address{"registry": nil, "node's cache": nil, "rebuilt cache": nil}
+	for a, e := range tree {
+		if e.online() {
+			onlineSets["registry"] = append(onlineSets["registry"], a)
+		}
+	}
+	for _, it := range n.App.ValidatorsCache.GetAllOnlineValidators().ToSlice() {
+		onlineSets["node's cache"] = append(onlineSets["node's cache"], it.(common.Address))
+	}
+	for _, it := range fresh.GetAllOnlineValidators().ToSlice() {
+		onlineSets["rebuilt cache"] = append(onlineSets["rebuilt cache"], it.(common.Address))
+	}
+	for where, as := range onlineSets {
+		for _, a := range as {
+			if !st.GetIdentityState(a).NewbieOrBetter() && !ledgerPools[a] {
+				x.fail("C10H:online-address-neither-validated-nor-pool", fmt.Sprintf("height %d (empty block: %v, flags %v): %s is online in the %s, its ledger status is %d and no identity of the ledger delegates to it", height, blk.IsEmpty(), blk.Header.Flags(), a.Hex(), where, st.GetIdentityState(a)))
+			}
+		}
+	}
+	x.c.Hit("oracle:ledger-clause(online => validated or pool) evaluated")
 	st.IterateOverIdentities(func(a common.Address, id state.Identity) {
 		if id.State.NewbieOrBetter() {
 			if e, ok := tree[a]; !ok || !e.validated() {
@@ -582,11 +676,19 @@ func (x *c10hrun) step(b int) (*types.Block, error) {
 	if !n.IsEligibleProposer() {
 		return nil, chainfx.ErrNotEligible
 	}
-	p, err := n.Propose()
-	if err != nil {
-		return nil, err
+	var blk *types.Block
+	if x.emptyAt != 0 && n.Chain.Head.Height()+1 == x.emptyAt {
+		// nobody proposed in this round: the network agrees on the empty block
+		blk = n.Chain.GenerateEmptyBlock()
+		x.emptyAt = 0
+		x.c.Hit("blocks:empty-block-at-switch-height")
+	} else {
+		p, err := n.Propose()
+		if err != nil {
+			return nil, err
+		}
+		blk = p.Block
 	}
-	blk := p.Block
 	syncPath := x.chk != nil && x.cs.Seed%2 == 0
 	guard := func(f func() error) (err error) {
 		defer func() {
@@ -706,6 +808,16 @@ func (x *c10hrun) rollback(target uint64) (map[common.Address]c10entry, error) {
 	return tree, nil
 }
 
+func c10hScriptDelegators(cs c10hcase) []int {
+	if cs.Variant == 3 {
+		return []int{1}
+	}
+	if cs.Seed%2 == 0 {
+		return []int{1, 3, 5} // Verified, Human, Verified
+	}
+	return []int{1, 3}
+}
+
 func c10hOpts(cs c10hcase) chainfx.HistoryOpts {
 	o := chainfx.HistoryOpts{Blocks: cs.Blocks, ShortEpochs: true, TxPerBlock: 2, WithFlips: cs.Seed%3 != 0}
 	if cs.World == "epochs" {
@@ -713,6 +825,14 @@ func c10hOpts(cs c10hcase) chainfx.HistoryOpts {
 	}
 	if cs.Script == "identityless-pool" {
 		o.WithFlips, o.TxPerBlock = true, 1
+	}
+	if cs.Script == "pool-emptied" {
+		// no ceremony, nobody sends random transactions (a stray kill would flush the pending switch early)
+		al := map[int]bool{}
+		for i := 1; i <= cs.Users; i++ {
+			al[i] = true
+		}
+		return chainfx.HistoryOpts{Blocks: cs.Blocks, TxPerBlock: 1, Always: al}
 	}
 	if cs.Script == "invitee-pool" {
 		// no ceremony within the history (first ceremony in 2099); the scripted identities send no random transactions
@@ -741,6 +861,23 @@ func c10hRun(c *hx.Ctx, cs c10hcase) error {
 		w.Opts.Validation = &config.ValidationConfig{ValidationInterval: 14 * time.Minute, FlipLotteryDuration: 2 * time.Minute,
 			ShortSessionDuration: time.Minute, LongSessionDuration: 2 * time.Minute}
 		w.Opts.FirstCeremony = w.T0.Add(8 * time.Minute).Unix()
+	}
+	var scriptPool common.Address
+	if cs.Script == "pool-emptied" {
+		k := chainfx.DetKey(cs.Seed, 1000)
+		scriptPool = crypto.PubkeyToAddress(k.PublicKey)
+		dels := c10hScriptDelegators(cs)
+		w.Genesis = func(app *appstate.AppState) {
+			app.State.SetGlobalEpoch(1)
+			app.State.SetBalance(scriptPool, chainfx.Dna(5000))
+			for _, d := range dels {
+				app.State.SetDelegatee(w.Addrs[d], scriptPool)
+				app.State.SetDelegationEpoch(w.Addrs[d], 0)
+				app.IdentityState.SetDelegatee(w.Addrs[d], scriptPool)
+			}
+			app.IdentityState.SetOnline(scriptPool, true)
+			app.IdentityState.SetOnline(w.Addrs[0], true) // the proposer: with somebody online the god address has no privilege
+		}
 	}
 	h, err := chainfx.Bootstrap(w, c10hOpts(cs), r, true)
 	if err != nil {
@@ -886,6 +1023,7 @@ func c10hRun(c *hx.Ctx, cs c10hcase) error {
 				c.Hit("blocks:identity-diff-without-IdentityUpdate-flag")
 			}
 			x.line("load fresh", "ok")
+			x.line("q fresh onlineok", x.onlineOK(fresh))
 			x.queryLines(x.view(fresh, nil), x.universe(tree))
 		}
 		x.check(blk, fresh, tree)
@@ -944,20 +1082,22 @@ func init() {
 			c.Rep.Evaluations = 1
 			return c10hRun(c, wrap.Replay)
 		}
-		n := c.Scale(7, 126)
+		n := c.Scale(11, 132)
 		c.Rep.Rule = "real single-node chains (chainfx: real mempool, ProposeBlock, AddBlock, attached ceremony, short epochs, StatusSwitchRange=DelegationSwitchRange=3) with 9-12 keyed identities of mixed status plus two funded addresses without identity record; per block up to 2 fixture txs + up to 3 registry-directed txs (delegate to identities / identity-less addresses, undelegate, online on/off by identities and by identity-less pools, kill-delegator, kill, replenish); after every block: node's incremental ValidatorsCache vs fresh Load, stored registry vs identity ledger; every stored identity diff replayed in the Lean model; distinct = distinct (seed, users, blocks)"
 		for i := 0; i < n; i++ {
 			cs := c10hcase{Seed: c.Seed*1000 + int64(i), Users: 9 + c.Rng.Intn(4), Blocks: 150}
 			if c.Tier == "thorough" {
 				cs.Blocks = 260
 			}
-			switch i % 7 {
+			switch i % 11 {
+			case 7, 8, 9, 10:
+				cs.Script, cs.Users, cs.Blocks, cs.Variant = "pool-emptied", 10, 16, i%11-7
 			case 5, 6:
 				// both kill-invitee variants and one of the other two within one quick run
 				cs.Script, cs.Users, cs.Blocks = "invitee-pool", 10, 45
-				cs.Variant = int(c.Seed+int64(i/7)) % 2
-				if i%7 == 6 {
-					cs.Variant = 2 + int(c.Seed+int64(i/7))%2
+				cs.Variant = int(c.Seed+int64(i/11)) % 2
+				if i%11 == 6 {
+					cs.Variant = 2 + int(c.Seed+int64(i/11))%2
 				}
 			case 4:
 				cs.Script, cs.Blocks = "identityless-pool", 90
